@@ -137,6 +137,8 @@ def gen_ops(rng, cfg, nops):
         'misuse': rng.choice([0, 0, 0.3, 1.0]),
         'parfile': rng.choice([0, 0.4, 1.0]),
         'update_repeat': rng.choice([0, 0.5, 1.5]),
+        'module_compile': rng.choice([0, 0.3, 1.0]),
+        'rebuild': rng.choice([0, 0.5, 1.0]) if cfg['kind'] == 'real' else 0,
         'via_other': rng.choice([0, 0, 0.5, 1.5]),
     }
     kinds = sorted(w)
@@ -180,6 +182,8 @@ def gen_ops(rng, cfg, nops):
         elif k == 'update_repeat':
             # the vector written last is written again (after whatever
             # happened to the parameters in between)
+            ops.append([k])
+        elif k in ('module_compile', 'rebuild'):
             ops.append([k])
         elif k == 'via_other':
             # a second optimizer attached to the same model and observation
@@ -629,6 +633,55 @@ def execute(case, keep_text=False):
                     fitted.add(c['name'])
                 check_values(step, 'update_model')
                 log.add('opt', 'update', vec)
+            elif k == 'module_compile':
+                # the public module-level function, called the way a script
+                # may: no prior table handed in
+                from taurex.optimizer import optimizer as omod
+                for owner, obj in (('m', model), ('o', obs)):
+                    got = real_call(step, k, omod.compile_params,
+                                    obj.fittingParameters,
+                                    obj.derivedParameters)
+                    want = [n for n in ref.order
+                            if ref.params[n]['owner'] == owner and
+                            ref.params[n]['fit']]
+                    names_ = [t[0] for t in got[0]]
+                    if names_ != want:
+                        viol('views', 'module-compile:names', 'got %s want %s'
+                             % (names_, want), step)
+                        raise Stop()
+                    for n, pr in zip(want, got[1]):
+                        sp = M.default_prior_spec(ref.params[n]['mode'],
+                                                  ref.params[n]['bounds'])
+                        pb = pr.boundaries()
+                        rb = M.ref_prior_bounds(sp)
+                        if pr.__class__.__name__ != sp['kind'] or not (
+                                _close(pb[0], rb[0], 1e-9) and
+                                _close(pb[1], rb[1], 1e-9)):
+                            viol('views', 'module-compile:prior',
+                                 '%s: %s%s, current mode/bounds imply %s%s'
+                                 % (n, pr.__class__.__name__, pb, sp['kind'],
+                                    rb), step)
+                            raise Stop()
+                out.bump('probes', 'module_level_compile')
+            elif k == 'rebuild':
+                if cfg['kind'] != 'real':
+                    continue
+                mols_ = [m_['name'] for m_ in cfg['model']['molecules']]
+                if sum(ref.values[m_] for m_ in mols_) > 0.9:
+                    continue        # (an invalid atmosphere cannot be built)
+                # build() again: the model re-collects its tables from its
+                # components, i.e. model-owned settings return to the defaults
+                # (values and the optimizer's user priors stay)
+                real_call(step, k, model.build)
+                for p0 in cfg['mparams']:
+                    pr = ref.params[p0['name']]
+                    pr['fit'] = p0['fit']
+                    pr['mode'] = p0['mode']
+                    pr['bounds'] = list(p0['bounds'])
+                for d0 in cfg['mderived']:
+                    ref.derived[d0['name']]['compute'] = d0['compute']
+                out.bump('probes', 'model_rebuilt')
+                dirty_since_compile = True
             elif k == 'update_repeat':
                 if last_vec[0] is None or last_vec[0][0] != ref.ncompiles \
                         or ref.compiled is None:
